@@ -29,7 +29,7 @@ def body(ctx):
             fam = "bool" if f[0] in ("cmp", "sel") else "cvt" if f[0] == "cv" else "math" if f[0] in ("m1", "m1i", "m2") else "float" if f[2] in ("f32", "f64") else "int"
             rp[fam].append(line)
     # --- the scalar slice of the exact operations: the same lane relations as the batch kernels
-    ip = rp["int"] if ctx.replay else c01.make_plan(ctx) + c07.make_plan(ctx)
+    ip = rp["int"] if ctx.replay else (c01.make_plan(ctx) + c07.make_plan(ctx))[:: ctx.q(1, 3)]      # thorough: a third of the owners' thorough plans
     # clip for integers and floats
     rng = ctx.rng
     for t, nb, sg in ([] if ctx.replay else c01.ITYPES):
@@ -47,7 +47,7 @@ def body(ctx):
     ev = [e for e in ev if "scalar" in e["archs"] or e["op"] == "clip"]
     ctx.log("integer events involving the scalar overloads: %d" % len(ev))
     lanes.validate(ctx, "T_Int.tla", ev, "c17int", plan_lines=ip)
-    fp = rp["float"] if ctx.replay else c02.make_plan(ctx) + [l for l in c08.make_plan(ctx) if " nearbyint_as_int " in l]
+    fp = rp["float"] if ctx.replay else c02.make_plan(ctx)[:: ctx.q(1, 2)] + [l for l in c08.make_plan(ctx) if " nearbyint_as_int " in l]
     for t, nb, E, M in ([] if ctx.replay else c02.FT):
         bits = 8 * nb
         tr = []
